@@ -2,36 +2,32 @@
    Statements only; proofs live in C12/Proofs*.v.  Model: C12/Model.v (transcription of
    psutil/_pslinux.py, _common.py, __init__.py), text layer and UTF-8 decoder: C12/Lib.v,
    specification (kernel printers k_..., demanded answers spec_...): C12/Spec.v.
-   [c : cfg] selects the code as it is ([cur]: text-mode read translates CR, name()
-   compares characters) or with the two proposed repairs ([repaired]); a hypothesis of
-   the form [flag c = true -> ...] is the exclusion of a known-finding class and is
-   vacuous for [repaired]. *)
+   [now] is the code as it is in /repo; [before_fix] is the code before the two repairs
+   this check led to (commits 46827e5, 76627f6) and appears only in the refuted statements. *)
 From PV Require Import C12.Spec C12.Proofs C12.ProofsEnv C12.ProofsLink.
 
 (* ---- cmdline() *)
 
 (* every argument vector (any count >= 1, empty arguments, any bytes but NUL) comes back
    as it is; the one shape read differently is a lone argument containing a space (next theorem) *)
-Theorem C12_cmdline_argv : forall c argv zombie,
+Theorem C12_cmdline_argv : forall argv zombie,
   argv <> [] -> forallb nul_free argv = true -> single_space argv = false ->
-  (nl_translate c = true -> forallb no_cr argv = true) ->
-  pl_cmdline c (view_cmd (KArgv argv) zombie) = Val argv.
-Proof. exact cmdline_argv. Qed.
+  pl_cmdline now (view_cmd (KArgv argv) zombie) = Val argv.
+Proof. exact cmdline_argv_now. Qed.
 Print Assumptions C12_cmdline_argv.
 
 (* a single NUL-terminated argument carries no NUL separator: it is split on spaces *)
-Theorem C12_cmdline_single_arg : forall c a zombie,
-  nul_free a = true -> (nl_translate c = true -> no_cr a = true) ->
-  pl_cmdline c (view_cmd (KArgv [a]) zombie) = Val (split_on 32 a).
-Proof. exact cmdline_single_arg. Qed.
+Theorem C12_cmdline_single_arg : forall a zombie,
+  nul_free a = true ->
+  pl_cmdline now (view_cmd (KArgv [a]) zombie) = Val (split_on 32 a).
+Proof. exact cmdline_single_arg_now. Qed.
 Print Assumptions C12_cmdline_single_arg.
 
 (* an overwritten title (words separated by single spaces; no terminator, a space, or one NUL) *)
-Theorem C12_cmdline_title : forall c ws t zombie,
+Theorem C12_cmdline_title : forall ws t zombie,
   wf_cmd (KTitle ws t) = true ->
-  (nl_translate c = true -> forallb no_cr ws = true) ->
-  pl_cmdline c (view_cmd (KTitle ws t) zombie) = Val ws.
-Proof. exact cmdline_title. Qed.
+  pl_cmdline now (view_cmd (KTitle ws t) zombie) = Val ws.
+Proof. exact cmdline_title_now. Qed.
 Print Assumptions C12_cmdline_title.
 
 (* the empty file: ZombieProcess for a zombie, [] for a live process (kernel thread) *)
@@ -40,24 +36,16 @@ Theorem C12_cmdline_empty_file : forall c zombie,
 Proof. exact cmdline_empty_file. Qed.
 Print Assumptions C12_cmdline_empty_file.
 
-(* finding: as the code is, an argument containing CR does not come back *)
-Theorem C12_cmdline_cr_refuted :
-  exists argv, argv <> [] /\ forallb nul_free argv = true /\ single_space argv = false /\
-               pl_cmdline cur (view_cmd (KArgv argv) false) <> Val argv.
-Proof. exact cmdline_cr_refuted. Qed.
-Print Assumptions C12_cmdline_cr_refuted.
-
 (* ---- environ() *)
 
 (* every block: the call succeeds, each NAME occurs once, and looking a NAME up gives the
    value of its last NAME=value entry before the first empty entry ('=' kept in values,
    entries without '=' or with an empty NAME and an unterminated tail ignored) *)
-Theorem C12_environ_lookup : forall c r,
+Theorem C12_environ_lookup : forall r,
   wf_env r = true ->
-  (nl_translate c = true -> no_cr (k_environ r) = true) ->
-  exists d, pl_environ c (view_env r) = Val d /\ NoDup (map fst d) /\
+  exists d, pl_environ now (view_env r) = Val d /\ NoDup (map fst d) /\
             forall k, aget k d = env_last k (e_items r).
-Proof. exact environ_lookup. Qed.
+Proof. exact environ_lookup_now. Qed.
 Print Assumptions C12_environ_lookup.
 
 (* the listed form of the demanded dictionary used by the harness is that dictionary *)
@@ -65,12 +53,6 @@ Theorem C12_environ_spec_list : forall items,
   NoDup (map fst (spec_env items)) /\ forall k, aget k (spec_env items) = env_last k items.
 Proof. exact environ_spec_list. Qed.
 Print Assumptions C12_environ_spec_list.
-
-Theorem C12_environ_cr_refuted :
-  exists r, wf_env r = true /\
-            forall d, pl_environ cur (view_env r) = Val d -> aget (bs "A") d <> env_last (bs "A") (e_items r).
-Proof. exact environ_cr_refuted. Qed.
-Print Assumptions C12_environ_cr_refuted.
 
 (* ---- exe() / cwd() *)
 
@@ -98,11 +80,11 @@ Print Assumptions C12_link_gone.
 (* exe() of a live process: the cleaned link target, or -- link withheld -- cmdline()[0]
    when that is an absolute path to an executable file and '' otherwise; the answer is
    stored, and a later call returns it whatever the kernel shows then *)
-Theorem C12_exe_fallback_and_cache : forall c r v',
-  wf_proc r = true -> (nl_translate c = true -> cmd_no_cr (p_cmd r) = true) ->
-  fe_exe c None (view_proc r) = (Val (spec_exe r), Some (spec_exe r))
-  /\ fe_exe c (Some (spec_exe r)) v' = (Val (spec_exe r), Some (spec_exe r)).
-Proof. exact exe_fallback_and_cache. Qed.
+Theorem C12_exe_fallback_and_cache : forall r v',
+  wf_proc r = true ->
+  fe_exe now None (view_proc r) = (Val (spec_exe r), Some (spec_exe r))
+  /\ fe_exe now (Some (spec_exe r)) v' = (Val (spec_exe r), Some (spec_exe r)).
+Proof. exact exe_fallback_and_cache_now. Qed.
 Print Assumptions C12_exe_fallback_and_cache.
 
 (* for any view at all: an answer of a first call is the cached one unless readlink was denied *)
@@ -115,12 +97,10 @@ Print Assumptions C12_exe_answer_is_cached.
 (* ---- name() *)
 
 (* the kernel's name; when it fills all 15 bytes and the basename of cmdline()[0] starts
-   with it, that basename.  As the code is: for ASCII names. *)
-Theorem C12_name_extension : forall c r,
-  wf_proc r = true -> (nl_translate c = true -> cmd_no_cr (p_cmd r) = true) ->
-  (name_chars c = true -> is_ascii (p_comm r) = true) ->
-  fe_name c (view_proc r) = Val (spec_name r).
-Proof. exact name_spec. Qed.
+   with it (as bytes), that basename -- for every name, whatever bytes it contains *)
+Theorem C12_name_extension : forall r,
+  wf_proc r = true -> fe_name now (view_proc r) = Val (spec_name r).
+Proof. exact name_spec_now. Qed.
 Print Assumptions C12_name_extension.
 
 Theorem C12_name_zombie : forall c v,
@@ -128,18 +108,49 @@ Theorem C12_name_zombie : forall c v,
 Proof. exact name_zombie. Qed.
 Print Assumptions C12_name_zombie.
 
-(* finding: a 15-byte name with a multi-byte character is not extended (len() counts characters) *)
+(* ---- regression: the code before the repairs breaks the statements above *)
+
+(* before 46827e5 an argument containing CR did not come back (text-mode read) *)
+Theorem C12_cmdline_cr_refuted :
+  exists argv, argv <> [] /\ forallb nul_free argv = true /\ single_space argv = false /\
+               pl_cmdline before_fix (view_cmd (KArgv argv) false) <> Val argv.
+Proof. exact cmdline_cr_refuted. Qed.
+Print Assumptions C12_cmdline_cr_refuted.
+
+Theorem C12_environ_cr_refuted :
+  exists r, wf_env r = true /\
+            forall d, pl_environ before_fix (view_env r) = Val d ->
+                      aget (bs "A") d <> env_last (bs "A") (e_items r).
+Proof. exact environ_cr_refuted. Qed.
+Print Assumptions C12_environ_cr_refuted.
+
+(* ... outside that class the old code met the statements too (so the class was exactly CR) *)
+Theorem C12_cmdline_argv_before_fix : forall argv zombie,
+  argv <> [] -> forallb nul_free argv = true -> single_space argv = false ->
+  forallb no_cr argv = true ->
+  pl_cmdline before_fix (view_cmd (KArgv argv) zombie) = Val argv.
+Proof. exact cmdline_argv_before_fix. Qed.
+Print Assumptions C12_cmdline_argv_before_fix.
+
+(* before 76627f6 a 15-byte name with a multi-byte character was not extended (len() counted characters) *)
 Theorem C12_name_multibyte_refuted :
   exists r, wf_proc r = true /\ cmd_no_cr (p_cmd r) = true /\ length (p_comm r) = 15%nat /\
-            fe_name cur (view_proc r) = Val (p_comm r) /\ spec_name r <> p_comm r.
+            fe_name before_fix (view_proc r) = Val (p_comm r) /\ spec_name r <> p_comm r.
 Proof. exact name_multibyte_refuted. Qed.
 Print Assumptions C12_name_multibyte_refuted.
 
-(* ... and a name the kernel cut inside a character is not extended even when it decodes to
-   15 characters (startswith compares the decoded texts) *)
+(* ... and a name the kernel cut inside a character was not extended even when it decoded to
+   15 characters (startswith compared the decoded texts) *)
 Theorem C12_name_cut_char_refuted :
   exists r, wf_proc r = true /\ cmd_no_cr (p_cmd r) = true /\ ulen (p_comm r) = 15%nat /\
             prefixb (p_comm r) (basename (hd [] (spec_cmdline (p_cmd r)))) = true /\
-            fe_name cur (view_proc r) = Val (p_comm r) /\ spec_name r <> p_comm r.
+            fe_name before_fix (view_proc r) = Val (p_comm r) /\ spec_name r <> p_comm r.
 Proof. exact name_cut_char_refuted. Qed.
 Print Assumptions C12_name_cut_char_refuted.
+
+(* ... while for ASCII names the old code met the statement *)
+Theorem C12_name_extension_before_fix : forall r,
+  wf_proc r = true -> cmd_no_cr (p_cmd r) = true -> is_ascii (p_comm r) = true ->
+  fe_name before_fix (view_proc r) = Val (spec_name r).
+Proof. exact name_spec_before_fix. Qed.
+Print Assumptions C12_name_extension_before_fix.
